@@ -233,10 +233,10 @@ def dump(dialect):
         goto[s] = [(num[A], v + 1) for A, v in r.items()]
         for A, v in r.items():
             edges.append((s, num[A], v))
-    defaults = [(s + 1, -v + 1) for s, v in t.defaulted_states.items()]
-    for s, v in t.defaulted_states.items():
-        if v >= 0:
-            raise TranslateError('defaulted state is not a reduction')
+    # a defaulted state is executed without looking at the next token: the model knows only default REDUCTIONS; anything else
+    # (e.g. a default accept) is left out of the model's tables and reported, so that the search still runs
+    defaults = [(s + 1, -v + 1) for s, v in t.defaulted_states.items() if v < 0]
+    bad_defaults = [s for s, v in t.defaulted_states.items() if v >= 0]
     past, rounds = compute_past(nstates, edges)
     try:
         kind = callback_kind(P)
@@ -248,7 +248,7 @@ def dump(dialect):
         raise TranslateError("production 0 is not S' -> start")
     return dict(dialect=dialect, num=num, terms=terms, nonterms=nonterms, prods=prods,
                 nstates=nstates, action=action, goto=goto, defaults=defaults, past=past,
-                cb=kind, start=start, rowkeys=rowkeys, past_rounds=rounds)
+                cb=kind, start=start, rowkeys=rowkeys, past_rounds=rounds, bad_defaults=bad_defaults)
 
 
 def plist(xs):
